@@ -289,7 +289,7 @@ func (c *ClientConn) Receive(reader io.Reader) error {
 
 	if raw.Header.OpCode == primitive.OpCodeEvent {
 		if c.eventHandler != nil {
-			frm, err := c.rawCodec().ConvertFromRawFrame(raw)
+			frm, err := codecs.ConvertFromRawFrame(c.rawCodec(), raw)
 			if err != nil {
 				return err
 			}
@@ -341,7 +341,7 @@ func (c *ClientConn) maybePrepareAndExecute(request Request, raw *frame.RawFrame
 	}
 
 	if isUnprepared {
-		frm, err := c.rawCodec().ConvertFromRawFrame(raw)
+		frm, err := codecs.ConvertFromRawFrame(c.rawCodec(), raw)
 		if err != nil {
 			c.logger.Error("failed to decode unprepared error response", zap.Error(err))
 			return false
@@ -392,7 +392,7 @@ func (c *ClientConn) maybeCachePrepared(request Request, raw *frame.RawFrame) {
 	// response types to see if check for prepared responses.
 	if request.IsPrepareRequest() {
 
-		frm, err := c.rawCodec().ConvertFromRawFrame(raw)
+		frm, err := codecs.ConvertFromRawFrame(c.rawCodec(), raw)
 		if err != nil {
 			c.logger.Error("failed to decode prepared result response", zap.Error(err))
 			return
@@ -418,7 +418,7 @@ func (c *ClientConn) maybeCachePrepared(request Request, raw *frame.RawFrame) {
 // reencodePrepare decodes a `PREPARE` request frame and encodes its message again as a new, uncompressed frame of the
 // given protocol version that carries none of the original request's flags.
 func (c *ClientConn) reencodePrepare(raw *frame.RawFrame, version primitive.ProtocolVersion) (*frame.RawFrame, error) {
-	frm, err := c.rawCodec().ConvertFromRawFrame(raw)
+	frm, err := codecs.ConvertFromRawFrame(c.rawCodec(), raw)
 	if err != nil {
 		return nil, err
 	}
@@ -485,7 +485,7 @@ func (c *ClientConn) SendAndReceive(ctx context.Context, f *frame.Frame) (*frame
 
 	select {
 	case r := <-request.res:
-		return c.rawCodec().ConvertFromRawFrame(r)
+		return codecs.ConvertFromRawFrame(c.rawCodec(), r)
 	case e := <-request.err:
 		return nil, e
 	case <-ctx.Done():
